@@ -37,6 +37,9 @@ pub enum Case {
     Legacy { text: String },
     /// JSON text to SwiftMessage<T>
     Json { mt: String, text: String },
+    /// a ParseError value built through its public fields (they are all public and the type is
+    /// deserialisable) rendered against an original text
+    ErrorRender { variant: String, position: u64, original: String },
 }
 
 fn report_panic(cfg: &Config, l: &mut Local, entry: &str, p: &PanicInfo, input: &str, case: &Case) {
@@ -231,6 +234,34 @@ pub fn judge(cfg: &Config, case: &Case, l: &mut Local) {
                 true,
                 hash_bytes2("hdr", text) ^ (*which as u64),
             );
+        }
+        Case::ErrorRender { variant, position, original } => {
+            let p = *position as usize;
+            let ffe = |pos: Option<usize>| {
+                ParseError::InvalidFieldFormat(Box::new(swift_mt_message::errors::InvalidFieldFormatError {
+                    field_tag: "32A".into(),
+                    component_name: "amount".into(),
+                    value: "1é0,00".into(),
+                    format_spec: "15d".into(),
+                    position: pos,
+                    inner_error: "bad".into(),
+                }))
+            };
+            let fpf = ParseError::FieldParsingFailed { field_tag: "20".into(), field_type: "Field20".into(), position: p, original_error: "bad é".into() };
+            let e = match variant.as_str() {
+                "FieldParsingFailed" => fpf,
+                "InvalidFieldFormat" => ffe(Some(p)),
+                "MissingRequiredField" => ParseError::MissingRequiredField { field_tag: "20".into(), field_name: "field_20".into(), message_type: "103".into(), position_in_block4: Some(p) },
+                _ => ParseError::MultipleErrors(vec![fpf, ffe(Some(p)), ffe(None)]),
+            };
+            render_error(cfg, l, &e, original, case);
+            // and through serde, as an application that stores errors would see it
+            if let Some(Ok(j)) = g!(cfg, l, "serde_json::to_string(ParseError)", original, case, serde_json::to_string(&e))
+                && let Some(Ok(e2)) = g!(cfg, l, "serde_json::from_str::<ParseError>", original, case, serde_json::from_str::<ParseError>(&j))
+            {
+                render_error(cfg, l, &e2, original, case);
+            }
+            l.eval(&format!("error-render:{variant}"), "rendered", true, hash_bytes2(variant, &format!("{position}:{original}")));
         }
         Case::Legacy { text } => {
             let mut outcome = "err";
@@ -602,6 +633,30 @@ pub fn run(cfg: &Config) -> i32 {
                     let mut v2 = v.clone();
                     set_path(&mut v2, &path, Value::String(nv));
                     cases.push(("json/leaf-systematic".into(), Case::Json { mt: mt.clone(), text: v2.to_string() }));
+                }
+            }
+        }
+    }
+    // error values with every kind of position (0, first lines, last line, beyond the end, the packed
+    // line<<16|column form, huge) against original texts of 0..6 lines, ASCII and not
+    {
+        let originals: Vec<String> = vec![
+            String::new(),
+            "one line".into(),
+            "{1:F01BANKBEBBAXXX0000000000}{2:I103BANKDEFFXXXXN}{4:\n:20:REF\n-}".into(),
+            "l1\nl2".into(),
+            "l1\nl2\nl3".into(),
+            "l1 é\nl2 ３\nl3 😀\nl4\nl5\nl6".into(),
+            w.fulls.first().cloned().unwrap_or_default(),
+        ];
+        for o in &originals {
+            let nl = o.lines().count() as u64;
+            let mut positions: Vec<u64> = vec![0, 1, 2, 3, 4, nl.saturating_sub(1), nl, nl + 1, nl + 2, 0xFFFF, 0x10000, 0x10001, 0x20000, 0x20005, 0x30000, 0x40000, nl << 16, (nl + 1) << 16, u32::MAX as u64, (usize::MAX >> 1) as u64, usize::MAX as u64];
+            positions.sort();
+            positions.dedup();
+            for p in positions {
+                for variant in ["FieldParsingFailed", "InvalidFieldFormat", "MissingRequiredField", "MultipleErrors"] {
+                    cases.push((format!("error-render/{variant}"), Case::ErrorRender { variant: variant.to_string(), position: p, original: o.clone() }));
                 }
             }
         }
